@@ -271,7 +271,8 @@ def check_onepass(m):
         s = rsig.parse_sig_body(m.sigs[n - 1 - i].body)
         if (op.sigtype, op.halg, op.pkalg) != (s.sigtype, s.halg, s.pkalg):
             probs.append('onepass %d type/algorithms differ from its signature' % i)
-        if op.keyid != rsig.issuer_keyid(s):
+        # a signature that names no issuer goes with the wildcard key id (eight zero octets, RFC 4880 5.1)
+        if op.keyid != (rsig.issuer_keyid(s) or (rsig.issuer_fpr(s) or bytes(20))[-8:]):
             probs.append('onepass %d issuer differs from its signature' % i)
         want_last = 1 if i == n - 1 else 0
         if op.last != want_last:
